@@ -182,47 +182,6 @@ class OnewayThreadModel:
     methods = {"start": m_start}
 
 
-# iteration over an opaque sequence (the batch list): ghost index, elements u_getitem(x, i), length u_len(x) >= 0
-
-def opaque_for(E, st, node, it):
-    from specs.seqdict import for_hook as _fh   # noqa
-    k = E.loop_ordinal(node)
-    key = "idx%d" % k
-    out = [may_raise(E, st, "iter")]            # a non-iterable batch payload
-    st.ghost[key] = VInt(0)
-    n = u_len(it.e)
-    st.assume(n >= 0)
-
-    def guard(h):
-        j = h.ghost[key].e
-        res = []
-        for s2, t in E.branch(h, j < n):
-            if t:
-                s2.assume(j >= 0)
-                elem = VOpaque(u_getitem(it.e, box_int(j)))
-                for ao in E.assign(node.target, elem, s2):
-                    if ao.kind == "next":
-                        res.append((ao.st, True, None))
-                    else:
-                        res.append((ao.st, None, ao))
-            else:
-                res.append((s2, False, None))
-        return res
-    return [o for o in E.cut_loop(node, st, guard, extra_frame=[("ghost", key)])] + \
-        [Out("raise", r.st, r.exc) for r in out]
-
-
-_orig_for = R.specs["syntax.for"]
-
-
-@R.spec("syntax.for", doc="for-loops over seqdict views (ghost index) and over opaque sequences (ghost index, u_getitem/u_len; may raise)")
-def for_any(E, st, args, kw):
-    node, it = args
-    if isinstance(it, VOpaque):
-        return opaque_for(E, st, node, it)
-    return _orig_for(E, st, args, kw)
-
-
 @R.method("VSeq", "mut:append")
 def seq_mut_append(E, st, recv, vals):
     return [(st, VSeq(z3.Concat(recv.e, z3.Unit(box(vals[0]))), recv.wrap), NONE, None)]
